@@ -1,7 +1,6 @@
 \* Exhaustive: one publisher, one URI, every cut (crash and injected error)
-\* of every write, one fault per behaviour; the properties the specification
-\* (which models the code's quirks) satisfies.  checks/c11.py generates the
-\* other configurations from the same template.
+\* of every write, one fault per behaviour, the current (repaired) code.
+\* checks/c11.py generates the other configurations from the same template.
 CONSTANTS
   Pubs <- PubsOne
   Uris <- UrisOneX
@@ -11,26 +10,26 @@ CONSTANTS
   MaxNr = 2
   MinAge = "zero"
   MaxAge = "inf"
-  MaxNrEquality = TRUE
+  MaxNrEquality = FALSE
   MaxSerial = 4
   MaxSession = 2
   DeltaChoices <- Deltas1
-  TruncateOnCreate = FALSE
-  RemoveOldFirst = FALSE
+  TruncateOnCreate = TRUE
+  RemoveTmpFirst = TRUE
+  RemoveOldFirst = TRUE
   MaxFaults = 1
   Depth = 99
   FaultOdds = 1
 SPECIFICATION MCSpec
 CONSTRAINT RBound
 VIEW RView
-INVARIANT RTypeOK
-INVARIANT NotificationRefsExist
-INVARIANT SnapshotIsStateAtSerial
-INVARIANT ClientCatchesUp
-INVARIANT DeltasContiguousOnDisk
+INVARIANT Inv11
 INVARIANT DeltasContiguousToCurrent
+INVARIANT DeltasBoundedOnDisk
+INVARIANT DeltasNeverExceedMaxNrOnDisk
 PROPERTY DiskFollowsLogical
 PROPERTY WriteOk
+PROPERTY RsyncEqualsSnapshotAfterWrite
 PROPERTY SerialPlusOne
 PROPERTY SessionOnlyOnReset
 CHECK_DEADLOCK FALSE
